@@ -135,24 +135,41 @@ func WorkerMain(args []string) int {
 	agg := NewStats()
 	perKey := map[string]int{}
 	start := time.Now()
+	// the work of this shard: every job progresses at the same relative pace, so that a
+	// budget that runs out cuts all jobs proportionally instead of dropping the later ones
+	type workItem struct {
+		ji   int
+		idx  uint64
+		frac float64
+	}
+	var work []workItem
 	gidx := uint64(0)
 	for ji := range jobs {
 		job := &jobs[ji]
-		fn := engines[job.Engine]
-		if fn == nil {
+		if engines[job.Engine] == nil {
 			fmt.Fprintln(os.Stderr, "no engine", job.Engine)
 			return 2
 		}
+		n := job.n(*tier)
 		if (job.Params["race"] == "1") != raceBuild() {
-			gidx += uint64(job.n(*tier))
+			gidx += uint64(n)
 			continue
 		}
-		for i := 0; i < job.n(*tier); i++ {
+		for i := 0; i < n; i++ {
 			idx := gidx
 			gidx++
 			if int(idx)%*of != *shard {
 				continue
 			}
+			work = append(work, workItem{ji, idx, float64(i) / float64(n)})
+		}
+	}
+	sort.SliceStable(work, func(a, b int) bool { return work[a].frac < work[b].frac })
+	{
+		for _, w := range work {
+			ji, idx := w.ji, w.idx
+			job := &jobs[ji]
+			fn := engines[job.Engine]
 			if *budget > 0 && time.Since(start) > *budget {
 				res.Extra["runs_skipped_budget"]++
 				continue
